@@ -92,8 +92,9 @@ def run_case(case, ctx):
         calendar(None, holidays=hols, weekend=[4, 5])
         poisoned = True
     try:
+        from .C13 import flavour
         with StepBudget(codes, budget) as sb:
-            st, res = ctx.call(drange, t0, t1, bump)
+            st, res = ctx.call(drange, flavour(t0, case.get('t0f')), flavour(t1, case.get('t1f')), bump)
     finally:
         if poisoned:
             from pyg_base import _drange
@@ -222,7 +223,12 @@ def gen_case(rng):
         t1 = t0 - (t1 - t0)
         if kind in ('single', 'compound') and not any(u in str(bump) for u in 'hns'):
             t1 = datetime.datetime(t1.year, t1.month, min(t1.day, 28))
-    return {'kind': kind, 't0': t0.isoformat(), 't1': t1.isoformat(), 'bump': bump, 'big': big, 'via_calendar': rng.random() < 0.15, 'default_calendar_has_holidays': rng.random() < 0.3}
+    case = {'kind': kind, 't0': t0.isoformat(), 't1': t1.isoformat(), 'bump': bump, 'big': big, 'via_calendar': rng.random() < 0.15, 'default_calendar_has_holidays': rng.random() < 0.3}
+    if rng.random() < 0.2:
+        # the endpoints as a caller may hold them: pandas Timestamp, numpy datetime64, ISO text, date
+        case['t0f'] = rng.choice([None, 'Timestamp', 'dt64', 'str', 'date'])
+        case['t1f'] = rng.choice([None, 'Timestamp', 'dt64', 'str', 'date'])
+    return case
 
 
 def plan(tier, seed, n):
